@@ -826,7 +826,7 @@ class DCMotor(MotorBase):
         if not isinstance(pwm, float | int):
             raise TypeError("Parameter 'pwm' must be a float or an integer.")
 
-        if (pwm > 1) or (pwm < -1):
+        if not -1 <= pwm <= 1:
             raise ValueError(
                 "Pulse Width Modulation (PWM) must be within -1 and 1."
             )
